@@ -22,6 +22,12 @@ Layer (c) `tokenizer_small`: the same comparison, exhaustively over all sources 
 
 `cli_examples`: the examples the manual itself gives for these syntax elements, and the minimal input of every
 finding, with the documented value.
+
+`cli_matrix`: the product (string form: naked / soft / hard / adjacent fragments with references / `:>` / here
+document / empty here document / unterminated soft and hard quote / here document without end marker) x (host) x
+(what follows the instruction) x (test case file / included file), and every reserved word naked / soft / hard
+quoted / with an empty quoted fragment added in every host - enumerated, so that every combination is met in every
+run (the thorough tier adds the kinds of next token).
 """
 import itertools
 import json
@@ -37,7 +43,10 @@ from vlib.runner import Sub, Verdict, fail
 PROPERTY_ID = 'C09'
 LEVEL = 'exploration'
 RULE = ('cli_examples: the manual\'s own examples for STRING/RICH-STRING/LIST/SYMBOL-REFERENCE and the minimal input of '
-        'every finding (enumerated, all counted). cli_roundtrip: Hypothesis draws (host in def string/def text-source/'
+        'every finding (enumerated, all counted). cli_matrix: enumerated product of 10 string forms x 15 hosts x 4 '
+        'kinds of what follows the instruction x (test case file / included file), plus every reserved word naked / '
+        'soft / hard / partly quoted in every host; cases that render to the same files are counted once. '
+        'cli_roundtrip: Hypothesis draws (host in def string/def text-source/'
         'file =/file +=/file NAME/env/stdin/-stdin/equals/def list/% args/run % args/run ( % args )/run @ PR args/'
         '[act]) x (items: tokens of 1-4 adjacent naked/soft/hard fragments over an alphabet with blanks, both quotes, '
         '@[ ]@, reserved words, option-like words, #, backslash, newline-in-quotes, non-ASCII, references to string/'
@@ -82,8 +91,10 @@ ASSUMPTIONS = [
     'TokenStream.position is only required to lie between the end of the previous token and the start of the '
     'head token without passing a line break (how much inter-token whitespace is consumed is not specified)',
     'a reference to an undefined symbol in a substituting fragment gives VALIDATION_ERROR (property C08)',
-    'the act host uses one physical line only (empty and comment lines of [act] are removed before parsing); the '
-    'line number of a syntax error in [act] is not checked (the actor reports the phase, not the line)',
+    'in [act] the arguments are written on one physical line, and a here document there has no empty, comment-like, '
+    '`[`- or `\\`-leading lines (`help act` / `help actor command line`: empty and comment lines are allowed and '
+    'ignored, `[` starts a phase header, `\\[` and `\\\\` are escape sequences at the start of a line); the line '
+    'number of a syntax error in [act] is not checked (the actor reports the phase and its source, not a line)',
     '`equals` only shows whether the denoted string is equal to the expected one (the contents of a file written '
     'with the value the reader gives under its first reading)',
 ]
@@ -717,6 +728,72 @@ def check_example(case) -> Verdict:
     return fail('example/' + case['name'].split(':')[0], d, labels=labels, nontrivial=True, key=case['name'])
 
 
+# =====================================================================================================================
+# the product (string form) x (host) x (what follows the instruction) x (test case file / included file), enumerated
+# =====================================================================================================================
+_MATRIX_FORMS = [
+    ('naked', ['tok', [['n', 'a@[S]@b']]]),
+    ('soft', ['tok', [['s', 'a @[S]@  b']]]),
+    ('hard', ['tok', [['h', 'a @[S]@ "b']]]),
+    ('adjacent', ['tok', [['n', 'x@[a_b]@'], ['s', ' @[L]@ '], ['h', '@[S]@'], ['n', '@[E]@y'], ['s', "'"]]]),
+    ('eol', ['eol', " a 'q' @[S]@  \"r"]),
+    ('here', ['here', 'EOF', ['l1 @[S]@', ' EOF', '', '# c', '[act]', "'@[a_b]@'"], True]),
+    ('empty-here', ['here', 'M-1', [], True]),
+    ('unterminated-soft', ['tok', [['n', 'a'], ['us', 'b c']]]),
+    ('unterminated-hard', ['tok', [['uh', 'b @[S]@']]]),
+    ('here-without-end', ['here', 'EOF', ['x', ' EOF', 'EOFX'], False]),
+]
+_MATRIX_ENDS = ['guard', 'next', 'eof_nl', 'eof']
+
+
+def enum_matrix(tier):
+    seen = set()
+
+    def case_of(host, item, nxt, end, inc):
+        if host in gen.STRING_HOSTS:
+            items, seps = [item], []
+        elif item[0] == 'tok':
+            items, seps = [['tok', [['n', 'p']]], item, ['tok', [['s', 'q r']]]], [' ', '  ']
+        else:
+            items, seps = [['tok', [['n', 'p']]], item], [' ']
+        return {'host': host, 'lead': ['dir d1'], 'pre': '', 'items': items, 'seps': seps, 'next': nxt, 'tail': '',
+                'htail': '', 'end': end, 'inc': inc, 'uws': []}
+
+    def emit(case):
+        rd = gen.render(case)
+        k = json.dumps(rd['files'], sort_keys=True)
+        if k in seen:
+            return None
+        seen.add(k)
+        return case
+
+    for host in gen.HOSTS:
+        if host == 'fname':
+            forms = [f for f in _MATRIX_FORMS if f[1][0] == 'tok']
+        else:
+            forms = _MATRIX_FORMS
+        for name, item in forms:
+            for end in _MATRIX_ENDS:
+                for inc in (False, True):
+                    nxt = 'paren' if host == 'argspar' else 'eol'
+                    c = emit(case_of(host, item, nxt, end, inc))
+                    if c:
+                        yield c
+        # every reserved word: naked (no string), soft and hard quoted, and with an empty quoted fragment added
+        for w in gen.RESERVED:
+            for frs in ([['n', w]], [['s', w]], [['h', w]], [['n', w], ['s', '']]):
+                c = emit(case_of(host, ['tok', frs], 'paren' if host == 'argspar' else 'eol', 'guard', False))
+                if c:
+                    yield c
+        if tier != 'quick':
+            for name, item in forms:
+                for nxt in ('arg', 'option', 'qreserved', 'paren', 'paren_nl'):
+                    for end in ('guard', 'eof'):
+                        c = emit(case_of(host, item, nxt, end, False))
+                        if c:
+                            yield c
+
+
 _SMALL_ALPHABET = ['a', ' ', '\n', '"', "'", '#', '\\', '@', '=', '\xa0']
 
 
@@ -751,11 +828,12 @@ def _render_cli(case):
 
 SUBS = [
     Sub('cli_examples', check_example, enumerate=enum_examples, exhaustive=True, shards={'quick': 2, 'thorough': 2}),
-    Sub('cli_roundtrip', check_cli, strategy=cli_strategy, budget={'quick': 4800, 'thorough': 100000},
+    Sub('cli_matrix', check_cli, enumerate=enum_matrix, exhaustive=True, render=_render_cli),
+    Sub('cli_roundtrip', check_cli, strategy=cli_strategy, budget={'quick': 4800, 'thorough': 80000},
         render=_render_cli),
-    Sub('cli_unicode_space', check_cli, strategy=cli_uws_strategy, budget={'quick': 2400, 'thorough': 50000},
+    Sub('cli_unicode_space', check_cli, strategy=cli_uws_strategy, budget={'quick': 2400, 'thorough': 40000},
         render=_render_cli),
-    Sub('tokenizer_diff', check_tok, strategy=tok_strategy, budget={'quick': 20000, 'thorough': 1500000}),
+    Sub('tokenizer_diff', check_tok, strategy=tok_strategy, budget={'quick': 20000, 'thorough': 600000}),
     Sub('tokenizer_small', check_tok, enumerate=enum_small, exhaustive=True),
     fuzz.fuzz_sub('tokenizer_fuzz', 'props.c09_strings', 'check_tok', 'decode_tok', 'tokenizer_diff',
                   runs={'quick': 100000, 'thorough': 4000000}, shards={'quick': 4, 'thorough': 16}, max_len=64,
